@@ -151,6 +151,9 @@ pub fn is_valid_token(token: &String, db: &Database) -> bool {
 pub fn is_valid_user_token(token: &String, user_name: &String, db: &Database) -> bool {
     let db = db.map.read().unwrap();
     match db.get(&format!("$$user_{}", user_name)) {
+        // A removed user that was already on disk stays in the map as a tombstone (value
+        // "<Empty>") until the next space reclaiming snapshot: it is not a user any longer
+        Some(value) if value.state == ValueStatus::Deleted => false,
         Some(value) => {
             log::debug!("[is_valid_token] Token {} value {}", value, token);
             value == token
